@@ -169,6 +169,10 @@ func runC03(c *Ctx) {
 	obMessageEndResets(c)
 	ruleAbandonResets(c)
 	ruleAcceptedRecorded(c)
+	// Conn.Close logs the session out but keeps helo and the envelope: it relies on the command loop stopping. A buffered
+	// EHLO dispatched after Close would create a session that inherits the interrupted transaction (Rcpt without Mail)
+	c.R.Rule("R-no-dispatch-after-close", "E2+E4+call graph", "after a dispatch that may close the connection the command loop passes a test of state written by Conn.Close before it dispatches another command", 2)
+	ruleNoDispatchAfterClose(c)
 	ruleTLSSuccessEffects(c) // STARTTLS ends the whole session (Logout, session cleared): the next EHLO creates one that sees the TLS state
 	if f := c.A.Func("(*Conn).handleStartTLS"); f != nil {
 		c.obFollow("TLS upgrade then reset", f, c.direct("st:Conn.conn"), []string{lReset}, nil, nil)
@@ -264,13 +268,7 @@ func runC03(c *Ctx) {
 	}
 
 	R.Rule("R-helo-before-newsession", "E2+E4", "the greeting name is stored before NewSession and cleared when NewSession fails; Hostname/TLSConnectionState read the live fields", 4)
-	for _, es := range c.effSites(lNewSession, "invoke:Backend.NewSession#1") {
-		site := es.site
-		seen := s.SeenBefore(site)
-		R.Ob(c.siteKey(site, "helo stored before NewSession"), c.P.InstrPos(site), seen["st:Conn.helo"], "no store to Conn.helo on every path before the NewSession call")
-		f := site.Parent()
-		c.obFollow("failed NewSession clears helo", f, func(in ssa.Instruction) bool { return in == site }, []string{`st:Conn.helo=""`}, c.F.SkipUnder(es.errDesc+` != nil`), nil)
-	}
+	obHeloFollowsNewSession(c)
 	if f := c.A.Func("(*Conn).handleGreet"); f != nil {
 		for _, st := range s.Find(f, "st:Conn.helo") {
 			_, _, v := storedField(st)
@@ -399,4 +397,19 @@ func rulePositiveAfterCallback(c *Ctx) {
 		}
 	}
 	R.Ob("positive MAIL/RCPT replies/found", "-", n >= 2, fmt.Sprintf("%d sites", n))
+}
+
+// obHeloFollowsNewSession (C03, C09): Conn.helo is the "greeted" flag of MAIL and AUTH. It is stored before NewSession
+// (so the backend can query the name) and cleared again when NewSession fails: a refused greeting must leave the
+// connection un-greeted, otherwise AUTH/MAIL pass their "introduce yourself first" test with no session in place.
+func obHeloFollowsNewSession(c *Ctx) {
+	R := c.R
+	_, s := c.Std()
+	for _, es := range c.effSites(lNewSession, "invoke:Backend.NewSession#1") {
+		site := es.site
+		seen := s.SeenBefore(site)
+		R.Ob(c.siteKey(site, "helo stored before NewSession"), c.P.InstrPos(site), seen["st:Conn.helo"], "no store to Conn.helo on every path before the NewSession call")
+		f := site.Parent()
+		c.obFollow("failed NewSession clears helo", f, func(in ssa.Instruction) bool { return in == site }, []string{`st:Conn.helo=""`}, c.F.SkipUnder(es.errDesc+` != nil`), nil)
+	}
 }
